@@ -1,8 +1,8 @@
 #!/bin/bash
-# process_seed.sh <Cxx> [props...]: confirm a round-3 seed in its worktree /tmp/seed3/Cxx, then run the checks on a scratch copy
+# process_seed.sh <Cxx> [props...]: confirm a round-3 seed in its worktree /tmp/seed${R:-3}/Cxx, then run the checks on a scratch copy
 ID=$1; shift
 PROPS="${@:-$ID}"
-WT=/tmp/seed3/$ID
+WT=/tmp/seed${R:-3}/$ID
 DEMO=$(grep -m1 '^DEMO:' $WT/seed_out/notes.md | sed 's/^DEMO: *cargo test --offline *//')
 echo "### $ID demo args: $DEMO"
 /verif/tools/confirm_seed.sh $WT $DEMO 2>&1 | grep -E "RESULT|does not apply"
